@@ -5,7 +5,7 @@ import vcheck
 from vcheck import Infra, log
 
 SPEC_DIR = os.path.join(vcheck.SPECS, "TokenBucket")
-CLAUSES = ["Upper", "Lower", "Unlimited"]
+CLAUSES = ["Upper", "Lower", "Unlimited", "NoStarve"]
 ASSUMPTIONS = [
     "bpf/qos_ratelimit.c is compiled as user-space C from /repo's current tree with shim headers (cshim/); bpf_ktime_get_ns is scripted; skb->len carries the wire length",
     "the policy is set through the real qos.Manager (SetSubscriberQoS / SetSubscriberPolicy) into real kernel maps; raw bytes are mirrored into the native program once per trace",
@@ -32,11 +32,19 @@ def gen_module(tr, name):
         up = sorted((rate * (x["e"] - f["e"]) - scale * (x["cum"] - f["cum"] + f["size"] - burst), k) for k, x in enumerate(evs) if x["adm"])
         lo = sorted((scale * (x["cum"] - f["cum"] + burst + maxpkt) - rate * (x["e"] - f["e"]), k) for k, x in enumerate(evs))
         rej = [k for k, x in enumerate(evs) if not x["adm"]][:3] if rate == 0 else []   # Unlimited: show rejected packets
+        dry, last = [], 0            # NoStarve: the ends of the longest stretches without an admission, and their starts
+        for k, x in enumerate(evs):
+            if x["adm"]:
+                dry.append((evs[k]["e"] - evs[last]["e"], last, k))
+                last = k
+        dry.append((evs[-1]["e"] - evs[last]["e"], last, n - 1))
+        for _, a, b in sorted(dry, reverse=True)[:3]:
+            rej += [a, max(a, b - 1)]
         keep = sorted({0, 1, 2, n // 4, n // 2, n - 1} | {k for _, k in up[:36]} | {k for _, k in lo[:12]} | set(rej))
         evs = [evs[k] for k in keep]
     rows = ["[e |-> %d, size |-> %d, adm |-> %s, cum |-> %d]" % (x["e"], x["size"], "TRUE" if x["adm"] else "FALSE", x["cum"]) for x in evs]
     t = open(os.path.join(SPEC_DIR, "TraceTemplate.tla")).read()
-    t = t.replace("@ANCHORS@", "DOMAIN Trace" if n <= 60 else "{1, 2, 3, 4}")
+    t = t.replace("@ANCHORS@", "DOMAIN Trace" if n <= 60 else "DOMAIN Trace" if len(evs) <= 70 else "{1, 2, 3, 4}")
     return (t.replace("@MODULE@", name).replace("@TRACE@", "<< " + ",\n  ".join(rows) + " >>").replace("@RATE@", str(tr["rate_bps"]))
             .replace("@BURST@", str(tr["burst"])).replace("@MAXPKT@", str(tr["maxpkt"])).replace("@BACKLOGGED@", "TRUE" if tr["backlogged"] else "FALSE"))
 
@@ -102,7 +110,8 @@ def _run(prop, tier, seed, replay, work, t0):
     design = []
     if not replay:
         cfgs = [("MC_upper.cfg", True), ("MC_lower.cfg", True), ("MC_upper_unbounded.cfg", True), ("MC_lower_unbounded.cfg", True),
-                ("MC_lower_unbounded_slow.cfg", True), ("MC_lower_tight.cfg", False)]
+                ("MC_lower_unbounded_slow.cfg", True), ("MC_lower_tight.cfg", False),
+                ("MC_nostarve_unbounded.cfg", True), ("MC_nostarve_hist.cfg", True)]
         if tier == "thorough":
             cfgs.append(("MC_agree.cfg", True))
         for cfg, holds in cfgs:
